@@ -96,6 +96,9 @@ pub struct Report {
 
 impl Report {
     pub fn new(id: &str, tier: &str) -> Report {
+        if let Ok(mut c) = crate::pipe::CURRENT_CHECK.lock() {
+            *c = id.to_string();
+        }
         let seed = std::env::var("VERIF_SEED")
             .ok()
             .and_then(|s| s.parse().ok())
